@@ -88,7 +88,12 @@ SPECS = {
             # X: = the sequence is given as an expression ("seq")
             'X:NOSORT', 'X:k', 'X:EXPR:k'],
     'str': ['k', 'k/cmp', 'k/cmp/desc', 'k/nocase', 'k/nocase/asc',
-            'k/nocase/desc', 'EXPR:k/nocase'],
+            'k/nocase/desc', 'EXPR:k/nocase',
+            # the locale-aware functions (the process runs in the C locale:
+            # code point order) and a function found in the namespace
+            'k/locale', 'k/strcoll/desc', 'k/locale_nocase',
+            'k/strcoll_nocase/desc', 'k/byfn', 'k/byfn/desc',
+            'EXPR:k/byfn/desc'],
     'float': ['k', 'k/cmp/desc'],
     'bool': ['k', 'k/cmp', 'k/cmp/desc'],
     'date': ['k', 'k/cmp', 'k/cmp/desc'],
@@ -176,7 +181,8 @@ def parse_spec(spec):
     for f in spec.split(','):
         p = f.split('/')
         out.append(({'k': 0, 'k2': 1, '': 0}[p[0]],
-                    len(p) > 1 and p[1] == 'nocase',
+                    len(p) > 1 and p[1] in ('nocase', 'locale_nocase',
+                                            'strcoll_nocase'),
                     len(p) > 2 and p[2].lower() == 'desc'))
     return out
 
@@ -259,10 +265,14 @@ def rotate_keys(seq, keys, mapping):
     return [keys[i - 1] for i in range(len(seq))]
 
 
+def by_function(a, b):
+    return (a > b) - (a < b)
+
+
 def render(ktype, syms, spec, mapping, reverse, batch, again=False):
     seq, keys = build(ktype, syms, mapping)
     snap = list(seq)
-    kw = {'seq': seq}
+    kw = {'seq': seq, 'byfn': by_function}
     if 'EXPR:' in spec:
         kw['sk'] = spec.split('EXPR:')[1]
     t = template(spec, mapping, reverse, batch, ktype)
